@@ -18,6 +18,17 @@ import json as _j
 _j.dump(_j.load(open('/verif/known_findings.json'))+_j.load(open('/verif/sim/worlds/daemon/PROPOSED_FINDINGS.json')),open('/var/tmp/w2sens/known.json','w'))  # def _known
 import sys,os,subprocess,shutil,json,time
 muts={
+ 'D1-state-file-kept-when-it-cannot-be-decoded':('C12','pkg/api/cniutil/cni.go',"""	defer os.Remove(path) // nolint: errcheck
+""","""	defer func() {
+		if len(infos) > 0 {
+			os.Remove(path) // nolint: errcheck
+		}
+	}()
+"""),
+ 'D2-eni-request-counted-on-last-container-only':('C12','pkg/api/galaxy/constant/utils/utils.go',"	for i := range spec.Containers {","	for i := len(spec.Containers) - 1; i >= 0 && i == len(spec.Containers)-1; i-- {"),
+ 'D4-common-args-only-for-first-network':('C12','pkg/galaxy/server.go',"			networkInfos[i].Args[k] = string(v)","			networkInfos[i].Args[k] = string(v)\n			if i > 0 {\n				delete(networkInfos[i].Args, k)\n			}"),
+ 'D5-ipv6-reservation-files-skipped':('C17','pkg/gc/flannel_gc.go',"			if fi.IsDir() || len(net.ParseIP(fi.Name())) == 0 {","			if fi.IsDir() || net.ParseIP(fi.Name()).To4() == nil {"),
+
  'A1-eni-network-ignored':('C12','pkg/galaxy/server.go',"		if utils.WantENIIP(&pod.Spec) && g.ENIIPNetwork != \"\" {","		if utils.WantENIIP(&pod.Spec) && g.ENIIPNetwork == \"-\" {"),
  'A2-eni-network-preferred-over-annotation':('C12','pkg/galaxy/server.go',"	if pod.Annotations == nil || pod.Annotations[constant.MultusCNIAnnotation] == \"\" {","	if pod.Annotations == nil || pod.Annotations[constant.MultusCNIAnnotation] == \"\" || (utils.WantENIIP(&pod.Spec) && g.ENIIPNetwork != \"\") {"),
  'A3-entry-interface-name-ignored':('C12','pkg/galaxy/server.go',"""	if netIf != "" {
